@@ -451,7 +451,15 @@ func Aborting() bool { return S.aborting }
 
 // Point is an explicit scheduling point (harness nodes, environment steps).
 //
+// AtomicPoint is a scheduling point placed (by the instrumenter) before an operation of sync/atomic;
+// it hands its argument through so that it can wrap the receiver or the address operand in place.
+//
 //go:norace
+func AtomicPoint[T any](p T) T {
+	Point("atomic")
+	return p
+}
+
 func Point(label string) {
 	t := Enter()
 	if t == nil {
